@@ -261,6 +261,12 @@ def propagate_rebin_uncertainties(uncertainty, data, mask, operation, operation_
             propagation_operation = np.multiply
         else:
             raise ValueError("propagation_operation not recognized.")
+    # Masked members are edited in place below, so work on copies to leave
+    # the arrays of the caller (ultimately of the NDCube) untouched.
+    uncertainty = type(uncertainty)(uncertainty.array.copy(), unit=uncertainty.unit)
+    data = data.copy()
+    if mask is not None and not isinstance(mask, bool):
+        mask = mask.copy()
     # Build mask if not provided.
     new_uncertainty = uncertainty[0]  # Define uncertainty for initial iteration step.
     if operation_ignores_mask or mask is None:
